@@ -221,7 +221,7 @@ structure AikProfile (cert : CertView) : Prop where
   subject_empty : cert.subjectLen = 0
   san : ∃ attrs m mo ve, cert.san = some (.dirName attrs) ∧ tcgAttrs attrs = (some m, some mo, some ve) ∧
     m ≠ "" ∧ mo ≠ "" ∧ ve ≠ "" ∧ m ∈ tpmManufacturers
-  eku_first : ∃ rest, cert.eku = some ("2.23.133.8.3" :: rest)
+  eku_contains : ∃ l, cert.eku = some l ∧ "2.23.133.8.3" ∈ l
   not_ca : cert.bcCa = some false
 
 theorem strTruthy_some {s : Option String} (h : strTruthy s = true) : ∃ t, s = some t ∧ t ≠ "" := by
@@ -232,8 +232,9 @@ theorem strTruthy_some {s : Option String} (h : strTruthy s = true) : ∃ t, s =
 
 theorem tpmCertProfile_ok {cert : CertView} (h : tpmCertProfile cert = .ok ()) : AikProfile cert := by
   unfold tpmCertProfile at h
-  simp only [except_bind_ok, rejectE_eq_ok, exists_const, someOr_ok, headOr_ok] at h
-  obtain ⟨hv, hs, _, san, hsan, attrs, hattrs, htr, hvend, eku, heku, first, hfirst, hoid, ca, hca, hcaf⟩ := h
+  have hflag : tpmEkuRuleIsContains = true := by decide
+  simp only [tpmEkuCheck, hflag, ↓reduceIte, except_bind_ok, rejectE_eq_ok, exists_const, someOr_ok, headOr_ok] at h
+  obtain ⟨hv, hs, _, san, hsan, attrs, hattrs, htr, hvend, eku, heku, hoid, ca, hca, hcaf⟩ := h
   have hdir : san = .dirName attrs := by
     unfold sanAttrs at hattrs
     split at hattrs <;> first | (cases hattrs; rfl) | cases hattrs
@@ -245,14 +246,7 @@ theorem tpmCertProfile_ok {cert : CertView} (h : tpmCertProfile cert = .ok ()) :
   refine ⟨by simpa using hv, by simpa using hs, ⟨attrs, m, mo, ve, by rw [hsan, hdir], ?_, hm0, hmo0, hve0, ?_⟩, ?_, ?_⟩
   · ext <;> simp [hm, hmo, hve]
   · rw [hm] at hvend; simpa using hvend
-  · cases eku with
-    | nil => simp at hfirst
-    | cons o rest =>
-      have : o = first := by simpa using hfirst
-      subst this
-      have : o = "2.23.133.8.3" := by simpa using hoid
-      subst this
-      exact ⟨rest, heku⟩
+  · exact ⟨eku, heku, by simpa using hoid⟩
   · subst hcaf; exact hca
 
 structure TpmRules (W : World) (st : AttStmt) (authDataRaw : Cbor) (cdj credKey : Bytes) (roots : List Root) : Prop where
